@@ -48,6 +48,7 @@ pub fn run_world(
         if prop == "C07" {
             w.rejoin_hygiene = false;
         }
+        hooks.init(&mut w);
         let n0 = w.rng.range(2, cfg.max_members.min(8));
         let mut res = w.bootstrap(n0, hooks.as_mut());
         if res.is_ok() {
